@@ -33,3 +33,21 @@ Print Assumptions C14_vtk_tet_every_truncation_rejected.
 Example C14_example : read_vtk_tria (fun x : Z => x) (fun z => z) (write_vtk_tria [(0, 0, 0); (1, 0, 0); (0, 1, 0)]%Z [(0, 1, 2); (2, 1, 0)])
   = Some ([(0, 0, 0); (1, 0, 0); (0, 1, 0)]%Z, [(0, 1, 2); (2, 1, 0)]).
 Proof. vm_compute. reflexivity. Qed.
+
+(* OFF files written by other tools per the format definition (any number of leading comment lines, "OFF", counts, vertex lines,
+   faces "3 a b c") load to the mesh they describe, zero-based, coordinates rounded to single precision *)
+Theorem C14_off_file_loads_to_described_mesh : forall (K : Type) (round32 : K -> K) (zK : Z -> K) comments (v : list (K * K * K)) (t : list tri),
+  t <> [] -> read_off round32 zK (lines_of (off_lines comments v t)) = Some (map (r3 round32) v, t).
+Proof. exact @off_file_loads. Qed.
+Print Assumptions C14_off_file_loads_to_described_mesh.
+
+(* files of the wrong kind yield no mesh *)
+Theorem C14_wrong_kind_rejected : forall (K : Type) (round32 : K -> K) (zK : Z -> K) (v : list (K * K * K)),
+  (forall t : list tet, t <> [] -> read_vtk_tria round32 zK (write_vtk_tet v t) = None) /\
+  (forall t : list tri, t <> [] -> read_vtk_tet round32 zK (write_vtk_tria v t) = None) /\
+  (forall t : list tri, read_off round32 zK (write_vtk_tria v t) = None).
+Proof.
+  intros. split; [intros; apply vtk_tet_file_rejected_by_tria_reader; assumption|].
+  split; [intros; apply vtk_tria_file_rejected_by_tet_reader; assumption|intros; apply vtk_file_rejected_by_off_reader].
+Qed.
+Print Assumptions C14_wrong_kind_rejected.
